@@ -574,9 +574,98 @@ static void run_longhold(Case &c)
     API("opn2_close", opn2_close(x.d));
 }
 
+// ---------------------------------------------------------------------------------------------
+// C06, several MIDI ports: a song whose tracks name 2..3 MIDI devices (FF 09) brings its events one per tick; the same channel
+// numbers and the same few keys are in use on every port. Every note-on handed over by the sequencer is judged with the same
+// before/after relation as a real-time note-on, under its channel number inside the player (16 x port + channel).
+// ---------------------------------------------------------------------------------------------
+struct PortEv { int kind, ch, a, b; };      // kind 9 note-on, 8 note-off, 0xB controller
+static std::vector<PortEv> g_port_seen;
+static void port_hook(void *, OPN2_UInt8 type, OPN2_UInt8, OPN2_UInt8 channel, const OPN2_UInt8 *data, size_t len)
+{
+    if(type != 0x9 && type != 0x8 && type != 0xB) return;
+    PortEv e; e.kind = type; e.ch = channel; e.a = len > 0 ? data[0] : 0; e.b = len > 1 ? data[1] : 0; g_port_seen.push_back(e);
+}
+static void run_ports(Case &c)
+{
+    Rng &r = c.rng;
+    Ctx x; x.chips = r.range(1, 3); x.emu = r.chance(0.5) ? 2 : 0; x.rate = 8000;
+    if(!open_instance(c, x, false)) return;
+    int rc = 0;
+    int amode = r.range(-1, 2);
+    API("opn2_setChannelAllocMode", opn2_setChannelAllocMode(x.d, amode));
+    static const char *names[] = {"Port A", "Port B", "MPU-401"};
+    const int nports = r.range(2, 3), ntr = r.range(nports, 4);
+    std::vector<int> port_of_track((size_t)ntr + 1, 0);
+    Song sg; sg.format = 1; sg.division = 96; sg.running_status = r.chance(0.5); sg.tracks.resize((size_t)ntr + 1);
+    sg.tracks[0].ev.push_back(mk_tempo(0, 500000));
+    for(int t = 1; t <= ntr; t++) { port_of_track[(size_t)t] = (t - 1) % nports; sg.tracks[(size_t)t].ev.push_back(mk_meta_text(0, 0x09, names[port_of_track[(size_t)t]])); }
+    struct FOp { int track, kind, ch, a, b; };
+    std::vector<FOp> ops;
+    uint64_t tick = 0;
+    const int chans[3] = {(int)r.below(9), 10 + (int)r.below(6), (int)r.below(9)};
+    const int keys[4] = {r.range(40, 80), r.range(40, 80), r.range(40, 80), r.range(40, 80)};
+    const int nev = r.range(10, 60);
+    for(int i = 0; i < nev; i++)
+    {
+        FOp o; o.track = 1 + (int)r.below((uint32_t)ntr); o.ch = chans[r.below(3)]; o.a = keys[r.below(4)]; o.b = 100;
+        unsigned k = r.below(10);
+        o.kind = k < 6 ? 9 : k < 9 ? 8 : 0xB;
+        if(o.kind == 0xB) { o.a = 64; o.b = r.chance(0.5) ? 127 : 0; }
+        if(o.kind == 8) o.b = 0;
+        tick += (uint64_t)r.range(1, 30);
+        sg.tracks[(size_t)o.track].ev.push_back(mk_chan(tick, (uint8_t)((o.kind << 4) | o.ch), o.a, o.b));
+        ops.push_back(o);
+    }
+    tick += 10;
+    for(int t = 0; t <= ntr; t++) sg.tracks[(size_t)t].ev.push_back(mk_meta(tick, 0x2F, std::vector<uint8_t>()));
+    std::vector<uint8_t> file = serialize_song(sg);
+    { ExactBuf in(file); API("opn2_openData", rc = opn2_openData(x.d, in.p, (unsigned long)in.n)); }
+    if(rc != 0) { c.violation("oracle:C06:wellformed-file-rejected", opn2_errorInfo(x.d)); opn2_close(x.d); return; }
+    API("opn2_setRawEventHook", opn2_setRawEventHook(x.d, port_hook, NULL));
+    StateSnap before, after;
+    size_t next = 0; double delay = 0; long guard = 0; bool lost = false; long on_further = 0;
+    std::string trail = vfmt("[song, %d ports, %d chip(s), alloc mode %d]", nports, x.chips, amode);
+    // the last event of the song is not judged: the End-of-Track rows that stand alone behind it are delivered with it (trailing
+    // silence is skipped), the song ends inside that call and the sequencer silences the first port
+    while(guard++ < 4000 && next + 1 < ops.size() && !lost && g_w.violations_in_case < 4)
+    {
+        g_port_seen.clear();
+        take_snapshot(x.d, x.tap, before);
+        double nd = 0; API("opn2_tickEvents", nd = opn2_tickEvents(x.d, delay, 1e-6));
+        delay = nd;
+        if(g_port_seen.empty()) { int e = 0; API("opn2_atEnd", e = opn2_atEnd(x.d)); if(e) break; continue; }
+        if(g_port_seen.size() != 1) { lost = true; break; }
+        const FOp &o = ops[next]; const PortEv &s = g_port_seen[0];
+        if(s.kind != o.kind || s.ch != o.ch || s.a != o.a) { lost = true; break; }
+        next++;
+        const int port = port_of_track[(size_t)o.track], midch = 16 * port + o.ch;
+        trail += vfmt(" %s(p%d ch%d %d)", o.kind == 9 ? "on" : o.kind == 8 ? "off" : "cc64", port, o.ch, o.kind == 0xB ? o.b : o.a);
+        if(trail.size() > 900) trail = trail.substr(0, 60) + " ..." + trail.substr(trail.size() - 700);
+        if(o.kind != 9) continue;
+        take_snapshot(x.d, x.tap, after);
+        bool active = false;
+        for(size_t ch = 0; ch < before.chip.size(); ch++) if(before.has_user(ch, (unsigned)midch, (unsigned)o.a)) active = true;
+        bool placed = false;
+        for(size_t ch = 0; ch < after.chip.size(); ch++) if(after.has_user(ch, (unsigned)midch, (unsigned)o.a)) placed = true;
+        if(getenv("VERIF_C06_DBG")) { fprintf(stderr, "[dbg] note-on midch %d key %d placed %d active %d\n", midch, o.a, (int)placed, (int)active); for(size_t ch = 0; ch < after.chip.size(); ch++) { fprintf(stderr, "[dbg]  chip ch %zu keyon %d:", ch, (int)after.chip[ch].keyon); for(size_t i = 0; i < after.chip[ch].users.size(); i++) fprintf(stderr, " (%u,%u,s%u)", after.chip[ch].users[i].midch, after.chip[ch].users[i].note, after.chip[ch].users[i].sustained); fprintf(stderr, " | before:"); for(size_t i = 0; i < before.chip[ch].users.size(); i++) fprintf(stderr, " (%u,%u,s%u)", before.chip[ch].users[i].midch, before.chip[ch].users[i].note, before.chip[ch].users[i].sustained); fprintf(stderr, "\n"); } }
+        Op on; on.kind = OP_ON; on.ch = midch; on.a = o.a; on.b = 100;
+        c06_check(c, before, after, on, placed ? 1 : 0, active, false, trail, x, amode);
+        if(port > 0) on_further++;
+    }
+    if(lost) { c.inconclusive = true; count("ports_events_not_attributable"); }
+    count("ports_noteons_on_further_ports", on_further);
+    cover(vfmt("ports|p%d|chips%d|m%d", nports, x.chips, amode));
+    c.sig = vfmt("ports|%d|%d", nports, x.chips);
+    c.sample(std::string("{\"mode\":\"c06-ports\",\"history\":") + jstr(trail) + "}");
+    API("opn2_setRawEventHook", opn2_setRawEventHook(x.d, NULL, NULL));
+    opn2_close(x.d);
+}
+
 static void run_case(Case &c)
 {
     if(g_w.optnum("longhold", 0)) { run_longhold(c); return; }
+    if(g_w.optnum("ports", 0)) { run_ports(c); return; }
     Rng &r = c.rng;
     std::string mode = g_w.optstr("mode", "c04");
     Ctx x;
